@@ -119,12 +119,12 @@ def mergeTwice (w : Option Writer) (spill : Nat) (l r : Chunk α) : Res (MergePo
 
 /-! ### `__dask_tokenize__` (`_mpu.py:95-105`) -/
 
-/-- the tuple `MPUChunk.__dask_tokenize__` returns on /repo main: every field except `lhs_keep` -/
+/-- the tuple `MPUChunk.__dask_tokenize__` returned before fix F64 (b3bf7eb): every field except `lhs_keep` -/
 def Chunk.tokenAsFound (c : Chunk α) :
     Nat × Int × List α × List α × List (Part α) × List (Nat × Int) × Bool :=
   (c.next, c.credits, c.data, c.left, c.parts, c.observed, c.isFinal)
 
-/-- the tuple with `lhs_keep` included (branch `fix2-C06`) -/
+/-- the tuple `MPUChunk.__dask_tokenize__` returns on /repo main (as repaired by F64): `lhs_keep` included -/
 def Chunk.token (c : Chunk α) :
     (Nat × Int × List α × List α × List (Part α) × List (Nat × Int) × Bool) × Nat :=
   (c.tokenAsFound, c.lhsKeep)
